@@ -1,6 +1,7 @@
 import SqiProofs.LllOps
 import SqiProofs.LllCheck
 import SqiProofs.LllDim2
+import SqiProofs.LllGuard
 /- Property C16 — "Lattice reduction keeps the lattice and reduces it; responses are short".
    Property theorems only (+ non-vacuity examples); lemmas live in SqiProofs/Lll*.lean, models in
    SqiModel/{Lll,Dim2}.lean (tied to the C code by the correspondence / certificate harness tools/props/c16.py). -/
@@ -50,8 +51,9 @@ example :
 /-! ## (2) reducedness: certificate checking with a proved checker   (PARTIAL)
 
 Which operations the routine performs, and whether it terminates, is decided by GMP `mpf` floats that no exact
-model reproduces.  FULL STATEMENT (not provable about floats, and FALSE of the unchanged code for inputs whose
-float precision `2·Σ max-bitsize` is smaller than about `bitsize(q) + 2·max-bitsize`, see notes/C16.md):
+model reproduces.  FULL STATEMENT (not provable about floats; it was FALSE of the code before repo commit ba3b4ab,
+whose precision `2·Σ max-bitsize` ignored q — the repaired precision is `2·Σ max-bitsize + 4·bitsize(q) + 128`,
+`SqiModel.Lll.lllPrecision`; the old failing input is in corpus/C16 and runs first on every check):
   "for every full-rank lattice `quat_lattice_lll` returns 0 and a (δ,η)-reduced basis of the same lattice".
 PROVED: the exact checker `lllCheck`, which the harness runs on EVERY C output, is sound with respect to the
 mathematical (rational Gram-Schmidt) definition of being reduced, plus the classical consequence. -/
@@ -102,13 +104,53 @@ theorem lllRetCheck_sound {dn dd en ed q : Int} {lat red : Mat4} {ret : Int}
 example : lllCheck 98 100 51 100 13 ⟨⟨5, 0, 0, 0⟩, ⟨0, 7, 0, 0⟩, ⟨0, 0, 3, 0⟩, ⟨0, 0, 0, 1⟩⟩
     ⟨⟨0, 5, 0, 0⟩, ⟨0, 0, 7, 0⟩, ⟨0, 0, 0, 3⟩, ⟨1, 0, 0, 0⟩⟩ = true := by decide
 
-/-- the rank-deficiency clause is FALSE of the unchanged code (`lll_reports_rank_deficiency` would read: "singular
-    input ⇒ ret = -1"): witness replayed on the C code by the harness (known finding `lll:rank-deficient:ret0`):
-    q = 1, columns (0,3,0,0),(0,1,0,0),(0,4,0,0),(0,0,0,1): the C routine returns 0, which the post-condition
-    rejects. -/
+/-! ### the rank-deficiency clause — true of the REPAIRED routine (repo commit ba3b4ab)
+
+`lllRepaired t L` models the repaired `quat_lattice_lll` for an arbitrary float trace `t` (operation list + whether
+the float test `B[k] == 0.0` fires): it begins with the exact rank test `lllGuard` = `ibz_mat_4x4_inv_with_det_as_denom`.
+The harness compares `lllGuard` with the C return value on every call (`ret = -1` iff the guard says so). -/
+
+/-- rank-deficient input (a non-trivial integer relation between the generators, equivalently det = 0) is ALWAYS
+    reported: the repaired routine returns -1 and writes no basis, whatever the floats would have done. -/
+theorem lll_reports_rank_deficiency (t : Trace) (lat : Mat4)
+    (h : ∃ v : Fin 4 → ℤ, v ≠ 0 ∧ (toM lat).mulVec v = 0) : lllRepaired t lat = (-1, none) :=
+  SqiProofs.LllGuard.repaired_of_singular t lat ((SqiProofs.LllGuard.det_zero_iff_dependent lat).mpr h)
+
+/-- the guard is exactly the determinant test: it fires iff det = 0 (iff the generators are dependent). -/
+theorem lll_guard_iff (lat : Mat4) :
+    (lllGuard lat = some (-1) ↔ (toM lat).det = 0) ∧ (lllGuard lat = none ↔ (toM lat).det ≠ 0) ∧
+    ((toM lat).det = 0 ↔ ∃ v : Fin 4 → ℤ, v ≠ 0 ∧ (toM lat).mulVec v = 0) :=
+  ⟨SqiProofs.LllGuard.guard_fail_iff lat, SqiProofs.LllGuard.guard_pass_iff lat,
+   SqiProofs.LllGuard.det_zero_iff_dependent lat⟩
+
+/-- full-rank input is never rejected by the entry test: a -1 can then only come from the remaining float test
+    (never observed; the harness treats it as a violation), and otherwise the routine returns 0 with
+    `red = lattice·Hᵀ`, det H = ±1, same column lattice — for every valid operation sequence. -/
+theorem lll_full_rank_outcome (t : Trace) (lat : Mat4) (h : (toM lat).det ≠ 0)
+    (hv : ∀ op ∈ t.ops, op.valid = true) :
+    ((lllRepaired t lat).1 = -1 ↔ t.floatZero = true) ∧
+    (t.floatZero = false →
+      ∃ red, lllRepaired t lat = (0, some red) ∧
+        toM red = toM lat * (toM (run t.ops lat.transpose).2).transpose ∧
+        ((toM (run t.ops lat.transpose).2).det = 1 ∨ (toM (run t.ops lat.transpose).2).det = -1) ∧
+        rowSpan (toM red).transpose = rowSpan (toM lat).transpose) := by
+  rw [SqiProofs.LllGuard.repaired_of_full_rank t lat h]
+  constructor
+  · cases t.floatZero <;> simp
+  · intro hf
+    refine ⟨runCols t.ops lat, by simp [hf], lll_ops_preserve_span_cols t.ops hv lat⟩
+
+/-- regression (former finding `lll:rank-deficient:ret0`, corpus/C16/singular-ret0.json): q = 1, columns
+    (0,3,0,0),(0,1,0,0),(0,4,0,0),(0,0,0,1).  The unrepaired code returned 0 with two zero columns, which the
+    post-condition rejects; the repaired model returns -1, which it accepts. -/
 example : lllRetCheck 98 100 51 100 1 ⟨⟨0, 0, 0, 0⟩, ⟨3, 1, 4, 0⟩, ⟨0, 0, 0, 0⟩, ⟨0, 0, 0, 1⟩⟩ 0
     ⟨⟨0, 0, 0, 0⟩, ⟨0, 0, 1, 0⟩, ⟨0, 0, 0, 0⟩, ⟨0, 0, 0, 1⟩⟩ = false := by decide
-
+example : lllRepaired ⟨[Op.red 1 0 3, Op.swap 1], false⟩ ⟨⟨0, 0, 0, 0⟩, ⟨3, 1, 4, 0⟩, ⟨0, 0, 0, 0⟩, ⟨0, 0, 0, 1⟩⟩ = (-1, none)
+    ∧ lllRetCheck 98 100 51 100 1 ⟨⟨0, 0, 0, 0⟩, ⟨3, 1, 4, 0⟩, ⟨0, 0, 0, 0⟩, ⟨0, 0, 0, 1⟩⟩ (-1) Mat4.zero = true := by decide
+/-- regression (former finding `…:zero-first-column:sigfpe`): the zero matrix is reported, no division happens. -/
+example : lllRepaired ⟨[], false⟩ Mat4.zero = (-1, none) := by decide
+/-- non-vacuity of `lll_full_rank_outcome`: a full-rank lattice passes the guard. -/
+example : lllGuard ⟨⟨5, 0, 0, 0⟩, ⟨0, 7, 0, 0⟩, ⟨0, 0, 3, 0⟩, ⟨0, 0, 0, 1⟩⟩ = none := by decide
 
 /-! ## (3) dimension-2 routines (exact integers; models in SqiModel/Dim2.lean, compared with dim2.c on every run)
 
